@@ -1,3 +1,4 @@
+import PydapModel.FileHandlers
 import PydapModel.Generated.Tables
 import PydapModel.Path
 import PydapModel.Sexp
